@@ -1457,13 +1457,20 @@ impl ValidationCache {
             return;
         };
 
-        self.inner.lock().insert(
-            key,
-            (
-                Instant::now() + Duration::from_secs(first_record.ttl.into()).clamp(min, max),
-                proof.clone(),
-            ),
-        );
+        let mut lifetime = Duration::from_secs(first_record.ttl.into()).clamp(min, max);
+        if let Ok(RrsetProof {
+            adjusted_ttl: Some(adjusted_ttl),
+            ..
+        }) = &proof
+        {
+            // a positive verdict must not outlive the signature it rests on: the authenticated TTL
+            // is already bounded by the time left until the RRSIG expires
+            lifetime = lifetime.min(Duration::from_secs((*adjusted_ttl).into()));
+        }
+
+        self.inner
+            .lock()
+            .insert(key, (Instant::now() + lifetime, proof.clone()));
     }
 }
 
